@@ -65,6 +65,7 @@ pub fn install_panic_hook() {
         } else {
             "<non-string panic>".to_string()
         };
+        let msg: String = if msg.len() > 240 { format!("{}…", msg.chars().take(240).collect::<String>()) } else { msg };
         let loc = info.location().map(|l| format!(" at {}:{}", l.file(), l.line())).unwrap_or_default();
         LAST_PANIC.with(|p| *p.borrow_mut() = Some(format!("{msg}{loc}")));
     }));
